@@ -547,3 +547,67 @@ package builtInFunctions
 //@   ensures[C08] err == nil && isNil(acntDst) && nonce != 0 ==> sameMeta(tokEnc(r), old0)
 //@   ensures[C15] err == nil ==> WFvalues(St)
 //@   modifies St, failed, readFailed, loadFailed, new(data_esdt.ESDigitalToken), new(data_esdt.MetaData), new(big.Int), new([][]byte)
+
+//@ func (e *esdtNFTMultiTransfer) createESDTNFTOutputTransfers
+//@   view dstA = seq(dstAddress)
+//@   requires e != nil && !isNil(e.marshalizer) && !isNil(e.shardCoordinator) && vmInput != nil && vmOutput != nil
+//@   requires len(listTokenIDs) == len(listESDTTransferData) && len(listESDTTransferData) < 1048576 && costBound(e.gasConfig.DataCopyPerByte)
+//@   requires forall(j, int, 0 <= j && j < len(listESDTTransferData) ==> listESDTTransferData[j] != nil && listESDTTransferData[j].Value != nil)
+//@   loop 0 invariant vmOutput.GasRemaining <= old(vmOutput.GasRemaining) && failed == old(failed) && vmOutput.OutputAccounts == old(vmOutput.OutputAccounts)
+//@   loop 0 invariant forall(j, int, 0 <= j && j < len(listESDTTransferData) ==> listESDTTransferData[j] != nil && listESDTTransferData[j].Value != nil)
+//@   loop 0 invariant multiTransferCallArgs != nil && fresh(multiTransferCallArgs)
+//@   ensures[C17] err == nil ==> failed == old(failed)
+//@   ensures[C06] err == nil && old(vmOutput.OutputAccounts) == nil ==> onlyRcpt(vmOutput, dstA) && vmOutput.GasRemaining + fwdGas(vmOutput, dstA) <= old(vmOutput.GasRemaining)
+//@   modifies vmOutput.GasRemaining, vmOutput.OutputAccounts, failed, newmap(vmOutput.OutputAccounts), new(vmcommon.OutputAccount), new([]vmcommon.OutputTransfer), new(big.Int), new([][]byte)
+
+//@ func (e *esdtNFTMultiTransfer) processESDTNFTMultiTransferOnSenderShard
+//@   results out, err
+//@   view snd = seq(vmInput.CallerAddr)
+//@   view dstA = seq(vmInput.Arguments[0])
+//@   view nT = beval(seq(vmInput.Arguments[1])) % 18446744073709551616
+//@   requires e != nil && !isNil(e.marshalizer) && !isNil(e.pauseHandler) && !isNil(e.payableHandler) && !isNil(e.shardCoordinator) && !isNil(e.accounts) && esdtPrefix(e.keyPrefix)
+//@   requires vmInput != nil && len(vmInput.Arguments) >= 5 && !isNil(acntSnd) && addr(acntSnd) == seq(vmInput.CallerAddr) && WFvalues(St)
+//@   requires argBounds(vmInput) && costBound(e.funcGasCost) && costBound(e.gasConfig.DataCopyPerByte)
+//@   loop 0 invariant i <= numOfTransfers && WFvalues(St) && failed == old(failed) && (old(readFailed) ==> readFailed)
+//@   loop 0 invariant forall(a, addr, k, bseq, St[a][k] != old(St)[a][k] ==> (a == snd || a == dstA) && isTokKey(k))
+//@   loop 0 invariant forall(j, int, 0 <= j && j < i ==> listEsdtData[j] != nil && allocated(listEsdtData[j]) && listEsdtData[j].Value != nil)
+//@   loop 0 invariant vmOutput.GasRemaining == vmInput.GasProvided - numOfTransfers * e.funcGasCost && vmOutput.OutputAccounts == nil && vmOutput.ReturnCode == 0 && len(vmOutput.Logs) == numOfTransfers
+//@   loop 0 invariant i > 0 && verifyPayable && !isNil(acntDst) ==> payable(dstA)
+//@   ensures[C11] shape(out, err)
+//@   ensures[C17] err == nil ==> failed == old(failed)
+//@   ensures[C06] err == nil ==> onlyRcpt(out, dstA) && out.GasRemaining + fwdGas(out, dstA) <= vmInput.GasProvided
+//@   ensures[C16] err == nil ==> out.GasRemaining + fwdGas(out, dstA) <= vmInput.GasProvided - nT * e.funcGasCost && nT > 0
+//@   ensures[C09] err == nil ==> len(dstA) == len(snd) && dstA != snd && shardOf(dstA) != 4294967295
+//@   ensures[C09] err == nil && shardOf(dstA) == selfShard && mustVerify(vmInput, 3 * nT + 2) ==> payable(dstA)
+//@   ensures[C02,C05] forall(a, addr, k, bseq, St[a][k] != old(St)[a][k] ==> (a == snd || a == dstA) && isTokKey(k))
+//@   ensures[C15] err == nil ==> WFvalues(St)
+//@   ensures old(readFailed) ==> readFailed
+//@   modifies St, failed, readFailed, loadFailed
+
+//@ func (e *esdtNFTMultiTransfer) ProcessBuiltinFunction
+//@   params e, acntSnd, acntDst, vmInput
+//@   results out, err
+//@   view snd = seq(vmInput.CallerAddr)
+//@   view rcv = seq(vmInput.RecipientAddr)
+//@   view senderSide = seq(vmInput.CallerAddr) == seq(vmInput.RecipientAddr)
+//@   view nD = beval(seq(vmInput.Arguments[0])) % 18446744073709551616
+//@   requires e != nil && locksFree()
+//@   requires !isNil(e.marshalizer) && !isNil(e.pauseHandler) && !isNil(e.payableHandler) && !isNil(e.shardCoordinator) && !isNil(e.accounts) && esdtPrefix(e.keyPrefix)
+//@   requires sndIsCaller(acntSnd, vmInput) && dstIsRecipient(acntDst, vmInput) && WFvalues(St)
+//@   requires argBounds(vmInput) && costBound(e.funcGasCost) && costBound(e.gasConfig.DataCopyPerByte)
+//@   requires vmInput != nil && senderSide ==> !isNil(acntSnd)
+//@   requires vmInput != nil && !senderSide ==> forall(j, int, 0 <= j && j < len(vmInput.Arguments) ==> !dValNil(lnth(list(vmInput.Arguments), j)) && dVal(lnth(list(vmInput.Arguments), j)) > 0)
+//@   loop 0 invariant i <= numOfTransfers && WFvalues(St) && failed == old(failed) && (old(readFailed) ==> readFailed)
+//@   loop 0 invariant forall(a, addr, k, bseq, St[a][k] != old(St)[a][k] ==> a == rcv && isTokKey(k))
+//@   loop 0 invariant St != old(St) && mustVerify(vmInput, 3 * numOfTransfers + 1) ==> payable(rcv)
+//@   loop 0 invariant vmOutput.GasRemaining == vmInput.GasProvided && vmOutput.OutputAccounts == nil && vmOutput.ReturnCode == 0 && len(vmOutput.Logs) == numOfTransfers
+//@   ensures[C11] shape(out, err)
+//@   ensures[C17] err == nil ==> failed == old(failed)
+//@   ensures[C03] err == nil && !senderSide ==> isNil(acntSnd)
+//@   ensures[C06] err == nil && !senderSide ==> onlyRcpt(out, rcv) && out.GasRemaining + fwdGas(out, rcv) <= vmInput.GasProvided
+//@   ensures[C06] err == nil && senderSide ==> onlyRcpt(out, seq(vmInput.Arguments[0])) && out.GasRemaining + fwdGas(out, seq(vmInput.Arguments[0])) <= vmInput.GasProvided
+//@   ensures[C09] err == nil && !senderSide && St != old(St) && mustVerify(vmInput, 3 * nD + 1) ==> payable(rcv)
+//@   ensures[C09] err == nil && senderSide ==> shardOf(seq(vmInput.Arguments[0])) != 4294967295 && seq(vmInput.Arguments[0]) != snd && len(vmInput.Arguments[0]) == len(vmInput.CallerAddr)
+//@   ensures[C02,C05] forall(a, addr, k, bseq, St[a][k] != old(St)[a][k] ==> ((senderSide && (a == snd || a == seq(vmInput.Arguments[0]))) || (!senderSide && a == rcv)) && isTokKey(k))
+//@   ensures[C15] err == nil ==> WFvalues(St)
+//@   modifies St, failed, readFailed, loadFailed
